@@ -39,3 +39,36 @@ pub fn io_event(kind: &'static str, name: &str, a: u64, b: u64) {
         f(kind, name, a, b);
     }
 }
+
+/// Emits an I/O event when dropped, i.e. after the enclosing operation has completed
+/// (used where the operation is the tail expression of a function).
+pub struct IoEventOnDrop {
+    kind: &'static str,
+    name: String,
+    a: u64,
+    b: u64,
+}
+
+impl IoEventOnDrop {
+    pub fn new(kind: &'static str, name: &str, a: u64, b: u64) -> Self {
+        Self { kind, name: name.to_string(), a, b }
+    }
+}
+
+impl Drop for IoEventOnDrop {
+    fn drop(&mut self) {
+        io_event(self.kind, &self.name, self.a, self.b);
+    }
+}
+
+static FORCE_DEGRADED: std::sync::atomic::AtomicBool = std::sync::atomic::AtomicBool::new(false);
+
+/// When set, `Database::open` treats the recovery memory pool as empty, so a database with a
+/// non-empty WAL opens in read-only degraded mode (the `PRAGMA recover_wal` path).
+pub fn set_force_degraded(on: bool) {
+    FORCE_DEGRADED.store(on, Ordering::SeqCst);
+}
+
+pub fn force_degraded() -> bool {
+    FORCE_DEGRADED.load(Ordering::Relaxed)
+}
